@@ -202,9 +202,11 @@ def make_leaf(kind, Mat, herm_flag, counter):
     return cls(Mat, is_hermitian=bool(herm_flag))
 
 
-def make_operator(kind, A, herm_flag, g, counter, leaf="dense"):
+def make_operator(kind, A, herm_flag, g, counter, leaf="dense", pscale=1.0):
     """LinearOperator whose dense matrix equals A (a tensor, possibly requiring grad), built so that gradients reach A.
-    Composed kinds lose the Hermitian flag (as xitorch's composition does) except where noted."""
+    Composed kinds lose the Hermitian flag (as xitorch's composition does) except where noted.
+    pscale: magnitude of A (unit of the operator); the constant parts of sums/differences are drawn at that magnitude so
+    that the composed matrix equals A up to a few eps |A| (1.0 leaves everything as it was)."""
     import xitorch
     n = A.shape[-1]
     dt = A.dtype
@@ -212,6 +214,8 @@ def make_operator(kind, A, herm_flag, g, counter, leaf="dense"):
         return make_leaf(kind, A, herm_flag, counter)
     if kind in ("add", "sub"):
         P = gen.randn(g, A.shape[-2:], dt)          # unbatched constant part
+        if pscale != 1.0:
+            P = P * pscale
         if kind == "add":
             return make_leaf(leaf, A - P, False, counter) + xitorch.LinearOperator.m(P, is_hermitian=False)
         return make_leaf(leaf, A + P, False, counter) - xitorch.LinearOperator.m(P, is_hermitian=False)
@@ -286,7 +290,9 @@ def tree_leaves(tree):
     return [k for t in tree[1:] if isinstance(t, list) for k in tree_leaves(t)]
 
 
-def make_tree(tree, T, herm_flag, g, counter):
+def make_tree(tree, T, herm_flag, g, counter, pscale=1.0):
+    """pscale: magnitude of T; constant parts of sums/differences are drawn at that magnitude, the constant factor of a
+    product at its square root (so both factors, and their sub-trees, carry sqrt(pscale)); 1.0 leaves everything as it was"""
     import xitorch
     op = tree[0]
     n = T.shape[-1]
@@ -300,29 +306,35 @@ def make_tree(tree, T, herm_flag, g, counter):
                 return make_operator("jac", T, False, g, counter)
         return make_leaf(kind, T, herm_flag, counter)
     if op == "adj":
-        return make_tree(tree[1], H(T), herm_flag, g, counter).H
+        return make_tree(tree[1], H(T), herm_flag, g, counter, pscale).H
     if op == "scale":
         c = SCALES[tree[1]]
-        sub = make_tree(tree[3], T / c, herm_flag, g, counter)
+        sub = make_tree(tree[3], T / c, herm_flag, g, counter, pscale)
         return sub * c if tree[2] else c * sub
     swap = tree[1]
     if op in ("add", "sub"):
         P = gen.randn(g, (n, n), dt)
+        if pscale != 1.0:
+            P = P * pscale
         if herm_flag:
             P = 0.5 * (P + H(P))
         if op == "add":
-            a, b = make_tree(tree[2], T - P, herm_flag, g, counter), make_tree(tree[3], P, herm_flag, g, counter)
+            a, b = make_tree(tree[2], T - P, herm_flag, g, counter, pscale), make_tree(tree[3], P, herm_flag, g, counter, pscale)
             return b + a if swap else a + b
         if swap:
-            return make_tree(tree[2], P, herm_flag, g, counter) - make_tree(tree[3], P - T, herm_flag, g, counter)
-        return make_tree(tree[2], T + P, herm_flag, g, counter) - make_tree(tree[3], P, herm_flag, g, counter)
+            return make_tree(tree[2], P, herm_flag, g, counter, pscale) - make_tree(tree[3], P - T, herm_flag, g, counter, pscale)
+        return make_tree(tree[2], T + P, herm_flag, g, counter, pscale) - make_tree(tree[3], P, herm_flag, g, counter, pscale)
     if op == "matmul":
         P = rand_unitary(g, (), n, dt).to(dt) * 1.5
         Pinv = H(P) / 2.25
+        ps = 1.0
+        if pscale != 1.0:
+            ps = math.sqrt(pscale)
+            P, Pinv = P * ps, Pinv / ps
         if swap:
-            a, b = make_tree(tree[2], torch.matmul(T, Pinv), False, g, counter), make_tree(tree[3], P, False, g, counter)
+            a, b = make_tree(tree[2], torch.matmul(T, Pinv), False, g, counter, ps), make_tree(tree[3], P, False, g, counter, ps)
         else:
-            a, b = make_tree(tree[2], P, False, g, counter), make_tree(tree[3], torch.matmul(Pinv, T), False, g, counter)
+            a, b = make_tree(tree[2], P, False, g, counter, ps), make_tree(tree[3], torch.matmul(Pinv, T), False, g, counter, ps)
         # (two dense operands are folded into one matrix, whose Hermiticity xitorch verifies elementwise: a product is
         # Hermitian only up to rounding, so the flag is given to genuinely composite products only)
         folded = isinstance(a, xitorch.LinearOperator) and type(a).__name__ == type(b).__name__ == "MatrixLinearOperator"
